@@ -51,6 +51,22 @@ func (e *miniEval) Int(v ssa.Value) (int64, bool) {
 			if b != 0 {
 				return a / b, true
 			}
+		case token.AND:
+			return a & b, true
+		case token.OR:
+			return a | b, true
+		case token.XOR:
+			return a ^ b, true
+		case token.AND_NOT:
+			return a &^ b, true
+		case token.SHL:
+			if b >= 0 && b < 62 {
+				return a << uint(b), true
+			}
+		case token.SHR:
+			if b >= 0 && b < 62 {
+				return a >> uint(b), true
+			}
 		}
 	case *ssa.Phi:
 		k, ok := e.phiEdge(x)
